@@ -126,3 +126,16 @@ func VerifOpenELFNM(name, nm string, start, limit, offset uint64) (plugin.ObjFil
 	b := &binrep{fast: true, nm: nm, nmFound: true}
 	return b.openELF(name, start, limit, offset, "")
 }
+
+// VerifAttachToolNM gives the addr2line connection of a fileAddr2Line the nm
+// table it uses to improve function names, built with the object's base the
+// way fileAddr2Line.init does.
+func VerifAttachToolNM(o plugin.ObjFile, nmOutput string) error {
+	f := o.(*fileAddr2Line)
+	a, err := parseAddr2LinerNM(f.base, strings.NewReader(nmOutput))
+	if err != nil {
+		return err
+	}
+	f.addr2liner.nm = a
+	return nil
+}
